@@ -10,7 +10,22 @@ TraceInit == /\ tid \in 1..NTraces /\ l = 1
 \* to_json; enc_same: json.dumps(obj, cls=JSONEncoder) gave the same JSON value as to_json
 TSer   == IsEvent("Ser") /\ Ser /\ wire' = E.wire /\ E.enc_same = TRUE
 \* from_json: verdict, and the deserialised object's contents when there is one
+\* "no parameters" has two spellings in the library (None when built without, [] when deserialised): the statement says "the
+\* same parameters", not that == holds between the spellings - for such requests either answer of == is admitted
+SpelledEither == \/ kind = "rt_req" /\ msg.params = "none"
+                 \/ kind = "rt_breq" /\ \E j \in DOMAIN msg : msg[j].params = "none"
+\* == of two batches orders their elements by id first and RAISES TypeError when the ids cannot be ordered (an integer and a
+\* string, two notifications).  No listed property speaks about ==, so this is an observation (DESIGN 12d), not a violation:
+\* for batches of two or more elements that answer is admitted as well
+SortsIds == \/ kind = "rt_breq" /\ Len(msg) >= 2
+            \/ kind = "rt_bresp" /\ Len(msg.els) >= 2
+\* eq: the library's own == between the message that was built and the one that came back (round trips only: a lossless
+\* round trip gives an EQUAL message, and != agrees); printable: str() and repr() of the deserialised message work
 TParse == IsEvent("Parse") /\ Parse /\ out'.v = E.v /\ (E.v = "Ok" => out'.m = E.m)
+          /\ E.printable = TRUE
+          /\ IF kind \in RtKinds /\ E.v = "Ok"
+             THEN E.eq = "yes" \/ (SpelledEither /\ E.eq = "no") \/ (SortsIds /\ E.eq = "raise:TypeError")
+             ELSE E.eq = NA
 \* to_json of the deserialised object
 TReser == IsEvent("Reser") /\ Reser /\ wire2' = E.wire
 
